@@ -13,7 +13,9 @@ ASSUMPTIONS = [
     "the modules contain module-qualified type references (component, element, alias), a CHOICE with duplicate and unique payload types, IMPORTS clauses that mix type and value references (a value reference first, in the middle), a SEQUENCE with DEFAULT, a LazyLock static and a const",
 ]
 TEXT = ("M DEFINITIONS AUTOMATIC TAGS ::= BEGIN IMPORTS Tb, max-w, Tc FROM Mb depth-c, Td FROM Mc; C ::= CHOICE { a INTEGER, b BOOLEAN, c INTEGER, d Tb, e SEQUENCE { k NULL } } "
-        "S ::= SEQUENCE { x INTEGER DEFAULT 5, y C OPTIONAL, z Tc OPTIONAL, u Td OPTIONAL, qa Mb.Tc OPTIONAL, qb SEQUENCE OF Mc.Td OPTIONAL } Q ::= Mb.Tb D ::= CHOICE { p BOOLEAN, q BOOLEAN } v INTEGER ::= 7 w BOOLEAN ::= TRUE END\n"
+        "S ::= SEQUENCE { x INTEGER DEFAULT 5, y C OPTIONAL, z Tc OPTIONAL, u Td OPTIONAL, qa Mb.Tc OPTIONAL, qb SEQUENCE OF Mc.Td OPTIONAL } Q ::= Mb.Tb D ::= CHOICE { p BOOLEAN, q BOOLEAN } v INTEGER ::= 7 w BOOLEAN ::= TRUE "
+        # values of every constness: constant and non-constant CHOICE values, a SEQUENCE value, a string, an OBJECT IDENTIFIER, a constrained integer
+        "cv D ::= p : TRUE cn C ::= a : 5 cb C ::= b : FALSE sq S ::= { x 6 } st UTF8String ::= \"hi\" oi OBJECT IDENTIFIER ::= { 1 2 3 } sm INTEGER (0..9) ::= 4 END\n"
         "Mb DEFINITIONS AUTOMATIC TAGS ::= BEGIN Tb ::= NULL max-w INTEGER ::= 9 Tc ::= BOOLEAN Te ::= ENUMERATED { r, g } END\n"
         "Mc DEFINITIONS AUTOMATIC TAGS ::= BEGIN depth-c INTEGER ::= 3 Td ::= BOOLEAN END")
 DEFAULT_ANN = '#[derive(AsnType, Debug, Clone, Decode, Encode, PartialEq, Eq, Hash)]'
